@@ -9,7 +9,7 @@ K04c (E) whole projects: every name bound in every module / class namespace, pyd
 import ast
 from importlib._bootstrap import _resolve_name
 
-from lib.hx import harness, pick, pickb, done, tier, PART, note, known
+from lib.hx import harness, pick, pickb, done, tier, PART, note, known, sample
 
 PROPERTY = "C04"
 LEVEL = "model_checking"
@@ -216,6 +216,7 @@ def gen(form, in_class, deep, use, second):
 
 
 def compare(sources, direct):
+    sample(sources={k: v[0] for k, v in sources.items()})
     pym = PJ.run_cpython(sources)
     s = PJ.build(sources)
     for mname, m in pym.items():
